@@ -117,3 +117,66 @@ def path_key(path, keep=None):
     if keep is not None:
         v = {k: b for k, b in v.items() if keep(k)}
     return ", ".join(f"{k}={'T' if b else 'F'}" for k, b in sorted(v.items()))
+
+
+def iter_lines(fp, with_blocks=False):
+    """Yield (path, valuation, item) for every Line (and optionally Call/Loop blocks) a function can emit, the valuation
+    being the path's atoms merged with the deltas of the enclosing loop-body alternatives."""
+    def rec(items, val):
+        for it in items:
+            if isinstance(it, LoopBlock):
+                if with_blocks:
+                    yield val, it
+                for delta, sub, endk, end in it.bodies:
+                    v2 = dict(val)
+                    v2.update(delta)
+                    yield from rec(sub, v2)
+            elif isinstance(it, Line) or with_blocks:
+                yield val, it
+    for p in fp.paths:
+        for val, it in rec(fp.lines(p), p.valuation()):
+            yield p, val, it
+
+
+def true_flags(val):
+    return {k[2:] for k, v in val.items() if k.startswith("F:") and v}
+
+
+def false_flags(val):
+    return {k[2:] for k, v in val.items() if k.startswith("F:") and not v}
+
+
+def action_contexts(ctx):
+    """Feasible (is_start, transition is None) contexts of _generate_action_implementation, from its external call sites."""
+    import ast
+    from .srcmodel import calls_in
+    out = []
+    for q, f in ctx.model.functions.items():
+        if q == "CodegenCtx._generate_action_implementation":
+            continue
+        for c in calls_in(f, nested=False):
+            if isinstance(c.func, ast.Attribute) and c.func.attr == "_generate_action_implementation":
+                is_start = False
+                if len(c.args) >= 2:
+                    is_start = ast.literal_eval(c.args[1]) if isinstance(c.args[1], ast.Constant) else None
+                for k in c.keywords:
+                    if k.arg == "is_start":
+                        is_start = ast.literal_eval(k.value) if isinstance(k.value, ast.Constant) else None
+                has_tr = any(k.arg == "transition" for k in c.keywords) or len(c.args) >= 4
+                out.append({"caller": q, "is_start": is_start, "transition_none": not has_tr})
+    if not out:
+        raise AnalysisError("no external caller of _generate_action_implementation")
+    return out
+
+
+def feasible_action_path(val, contexts):
+    """Is a template path's valuation consistent with some external calling context? (recursive calls forward their context)"""
+    for c in contexts:
+        if c["is_start"] is not None and val.get("is_start") is not None and val["is_start"] != c["is_start"]:
+            continue
+        if val.get("transition is None") is not None and val["transition is None"] != c["transition_none"]:
+            continue
+        if c["is_start"] is True and val.get("is_end") is True:
+            continue
+        return True
+    return False
